@@ -669,7 +669,7 @@ func runC20(c *Check) {
 			}
 		}
 	}
-	c.Min("R3", "fresh pointer slices in decoders", n3, 2)
+	c.Min("R3", "fresh pointer slices in decoders", n3, 1)
 
 	// ---- R4 decoding loops make progress
 	n4 := 0
